@@ -156,6 +156,17 @@ func (g *Gen) currency(def string, label string) (string, string) {
 	return def, "cur-ok"
 }
 
+// fee returns the fee of the next transaction: the world's default, or (Hostile percent of the draws) a gas limit in
+// the range of what native transactions really use, so that some handlers succeed and the fee step then fails for
+// gas ("gas overflow"), others are refused outright
+func (g *Gen) fee() txgen.Fee {
+	f := g.W.Fee
+	if g.pct(g.Hostile, "fee-h") {
+		f.Gas = []int64{1, 20000, 30000, 40000, 50000, 60000, 80000, 120000}[g.Uniform(8, "fee-gas")]
+	}
+	return f
+}
+
 func (g *Gen) user(label string) (int, *sim.User) {
 	i := rapid.IntRange(0, len(g.W.G.U.Users)-1).Draw(g.T, label)
 	return i, g.W.G.U.Users[i]
@@ -243,7 +254,7 @@ func (g *Gen) Send() txgen.Tx {
 	capv = new(big.Int).Div(capv, big.NewInt(50))
 	amt, mtag := g.amount(capv, "amt")
 	signer, strange := g.signerFor(from, "signer")
-	tx := txgen.Send(signer, from.Addr, to, txgen.Amt(cur, amt), w.Fee, w.Memo())
+	tx := txgen.Send(signer, from.Addr, to, txgen.Amt(cur, amt), g.fee(), w.Memo())
 	tx.Tags = []string{atag, ctag, mtag}
 	if strange {
 		g.tag(&tx, "signer-other")
@@ -259,7 +270,7 @@ func (g *Gen) SendPool() txgen.Tx {
 	capv := new(big.Int).Div(w.Bal(from.Addr, "OLT"), big.NewInt(50))
 	amt, mtag := g.amount(capv, "amt")
 	signer, strange := g.signerFor(from, "signer")
-	tx := txgen.SendPool(signer, from.Addr, pool, txgen.Amt(cur, amt), w.Fee, w.Memo())
+	tx := txgen.SendPool(signer, from.Addr, pool, txgen.Amt(cur, amt), g.fee(), w.Memo())
 	tx.Tags = []string{"pool-" + pool, ctag, mtag}
 	if strange {
 		g.tag(&tx, "signer-other")
@@ -340,7 +351,7 @@ func (g *Gen) Stake() txgen.Tx {
 			signers = []*sim.User{stakeAcc, g.val("ov").Key}
 		}
 	}
-	tx := txgen.Stake(v, stakeAcc.Addr, txgen.Amt(cur, amt), w.Fee, w.Memo(), signers...)
+	tx := txgen.Stake(v, stakeAcc.Addr, txgen.Amt(cur, amt), g.fee(), w.Memo(), signers...)
 	tx.Tags = []string{ctag, mtag}
 	if strange {
 		g.tag(&tx, "signer-other")
@@ -387,7 +398,7 @@ func (g *Gen) Unstake() txgen.Tx {
 		signers = []*sim.User{o, v.Key}
 		atag += ",signer-other"
 	}
-	tx := txgen.Unstake(valAddr, stakeAcc.Addr, txgen.Amt("OLT", amt), w.Fee, w.Memo(), signers...)
+	tx := txgen.Unstake(valAddr, stakeAcc.Addr, txgen.Amt("OLT", amt), g.fee(), w.Memo(), signers...)
 	tx.Tags = []string{atag, mtag}
 	return g.note(tx)
 }
@@ -419,7 +430,7 @@ func (g *Gen) WithdrawStake() txgen.Tx {
 		}
 	}
 	signers := []*sim.User{stakeAcc, valKey}
-	tx := txgen.WithdrawStake(valAddr, stakeAcc.Addr, txgen.Amt("OLT", amt), w.Fee, w.Memo(), signers...)
+	tx := txgen.WithdrawStake(valAddr, stakeAcc.Addr, txgen.Amt("OLT", amt), g.fee(), w.Memo(), signers...)
 	tx.Tags = []string{atag, mtag}
 	return g.note(tx)
 }
@@ -439,7 +450,7 @@ func (g *Gen) WithdrawReward() txgen.Tx {
 	amt, mtag := g.amount(capv, "amt")
 	cur, ctag := g.currency("OLT", "cur")
 	s2, strange := g.signerFor(signer, "signer")
-	tx := txgen.WithdrawReward(v.Key.Addr, s2.Addr, txgen.Amt(cur, amt), w.Fee, w.Memo(), s2)
+	tx := txgen.WithdrawReward(v.Key.Addr, s2.Addr, txgen.Amt(cur, amt), g.fee(), w.Memo(), s2)
 	tx.Tags = []string{mtag, ctag}
 	if strange {
 		g.tag(&tx, "signer-other")
@@ -462,7 +473,7 @@ func (g *Gen) Delegate() txgen.Tx {
 	amt, mtag := g.amount(capv, "amt")
 	cur, ctag := g.currency("OLT", "cur")
 	s, strange := g.signerFor(u, "signer")
-	tx := txgen.Delegate(s, u.Addr, txgen.Amt(cur, amt), w.Fee, w.Memo())
+	tx := txgen.Delegate(s, u.Addr, txgen.Amt(cur, amt), g.fee(), w.Memo())
 	tx.Tags = []string{mtag, ctag}
 	if strange {
 		g.tag(&tx, "signer-other")
@@ -483,7 +494,7 @@ func (g *Gen) Undelegate() txgen.Tx {
 		amt, mtag = big.NewInt(1), "amt-ok"
 	}
 	s, strange := g.signerFor(u, "signer")
-	tx := txgen.Undelegate(s, u.Addr, txgen.Amt(cur, amt), w.Fee, w.Memo())
+	tx := txgen.Undelegate(s, u.Addr, txgen.Amt(cur, amt), g.fee(), w.Memo())
 	tx.Tags = []string{mtag, ctag}
 	if strange {
 		g.tag(&tx, "signer-other")
@@ -498,7 +509,7 @@ func (g *Gen) DelegWithdrawRewards() txgen.Tx {
 	amt, mtag := g.amount(bal, "amt")
 	cur, ctag := g.currency("OLT", "cur")
 	s, strange := g.signerFor(u, "signer")
-	tx := txgen.DelegWithdrawRewards(s, u.Addr, txgen.Amt(cur, amt), w.Fee, w.Memo())
+	tx := txgen.DelegWithdrawRewards(s, u.Addr, txgen.Amt(cur, amt), g.fee(), w.Memo())
 	tx.Tags = []string{mtag, ctag}
 	if strange {
 		g.tag(&tx, "signer-other")
@@ -513,7 +524,7 @@ func (g *Gen) DelegReinvest() txgen.Tx {
 	amt, mtag := g.amount(bal, "amt")
 	cur, ctag := g.currency("OLT", "cur")
 	s, strange := g.signerFor(u, "signer")
-	tx := txgen.DelegReinvest(s, u.Addr, txgen.Amt(cur, amt), w.Fee, w.Memo())
+	tx := txgen.DelegReinvest(s, u.Addr, txgen.Amt(cur, amt), g.fee(), w.Memo())
 	tx.Tags = []string{mtag, ctag}
 	if strange {
 		g.tag(&tx, "signer-other")
@@ -565,7 +576,7 @@ func (g *Gen) Allegation() txgen.Tx {
 	if h < 1 {
 		h = 1
 	}
-	tx := txgen.Allegation(signer, id, rep.Key.Addr, acc.Key.Addr, h, "proof", w.Fee, w.Memo())
+	tx := txgen.Allegation(signer, id, rep.Key.Addr, acc.Key.Addr, h, "proof", g.fee(), w.Memo())
 	tx.Tags = tags
 	tx.Note = fmt.Sprintf("%s:%d:%d", id, rep.Idx, acc.Idx)
 	return g.note(tx)
@@ -592,7 +603,7 @@ func (g *Gen) AllegationVote() txgen.Tx {
 		signer = u
 		tags = append(tags, "signer-other")
 	}
-	tx := txgen.AllegationVote(signer, id, voter.Key.Addr, choice, w.Fee, w.Memo())
+	tx := txgen.AllegationVote(signer, id, voter.Key.Addr, choice, g.fee(), w.Memo())
 	tx.Tags = tags
 	return g.note(tx)
 }
@@ -607,7 +618,7 @@ func (g *Gen) Release() txgen.Tx {
 			break
 		}
 	}
-	tx := txgen.Release(v.Key, v.Key.Addr, w.Fee, w.Memo())
+	tx := txgen.Release(v.Key, v.Key.Addr, g.fee(), w.Memo())
 	return g.note(tx)
 }
 
@@ -670,7 +681,7 @@ func (g *Gen) DomainCreate() txgen.Tx {
 		benef, atag = g.someAddr("benef")
 	}
 	s, strange := g.signerFor(u, "signer")
-	tx := txgen.DomainCreate(s, u.Addr, benef, name, "http://a.b/c", txgen.Amt("OLT", price), w.Fee, w.Memo())
+	tx := txgen.DomainCreate(s, u.Addr, benef, name, "http://a.b/c", txgen.Amt("OLT", price), g.fee(), w.Memo())
 	tx.Tags = []string{mtag, atag}
 	for ui, x := range w.G.U.Users {
 		if x == u {
@@ -692,7 +703,7 @@ func (g *Gen) DomainUpdate() txgen.Tx {
 	}
 	benef, atag := g.someAddr("benef")
 	s, strange := g.signerFor(u, "signer")
-	tx := txgen.DomainUpdate(s, u.Addr, benef, name, rapid.Bool().Draw(g.T, "active"), rapid.SampledFrom([]string{"http://a.b", "ftp://x.y/z", "", "notauri"}).Draw(g.T, "uri"), w.Fee, w.Memo())
+	tx := txgen.DomainUpdate(s, u.Addr, benef, name, rapid.Bool().Draw(g.T, "active"), rapid.SampledFrom([]string{"http://a.b", "ftp://x.y/z", "", "notauri"}).Draw(g.T, "uri"), g.fee(), w.Memo())
 	tx.Tags = []string{atag}
 	if strange {
 		g.tag(&tx, "signer-other")
@@ -709,7 +720,7 @@ func (g *Gen) DomainSale() txgen.Tx {
 	}
 	price, mtag := g.amount(oltWhole(50), "price")
 	s, strange := g.signerFor(u, "signer")
-	tx := txgen.DomainSale(s, u.Addr, name, txgen.Amt("OLT", price), rapid.IntRange(0, 4).Draw(g.T, "cancel") == 0, w.Fee, w.Memo())
+	tx := txgen.DomainSale(s, u.Addr, name, txgen.Amt("OLT", price), rapid.IntRange(0, 4).Draw(g.T, "cancel") == 0, g.fee(), w.Memo())
 	tx.Tags = []string{mtag}
 	if strange {
 		g.tag(&tx, "signer-other")
@@ -729,7 +740,7 @@ func (g *Gen) DomainPurchase() txgen.Tx {
 		acct, atag = g.someAddr("acct")
 	}
 	s, strange := g.signerFor(u, "signer")
-	tx := txgen.DomainPurchase(s, u.Addr, acct, g.existingDom("name"), txgen.Amt("OLT", offer), w.Fee, w.Memo())
+	tx := txgen.DomainPurchase(s, u.Addr, acct, g.existingDom("name"), txgen.Amt("OLT", offer), g.fee(), w.Memo())
 	tx.Tags = []string{mtag, atag}
 	if strange {
 		g.tag(&tx, "signer-other")
@@ -744,7 +755,7 @@ func (g *Gen) DomainSend() txgen.Tx {
 	amt, mtag := g.amount(capv, "amt")
 	cur, ctag := g.currency("OLT", "cur")
 	s, strange := g.signerFor(u, "signer")
-	tx := txgen.DomainSend(s, u.Addr, g.existingDom("name"), txgen.Amt(cur, amt), w.Fee, w.Memo())
+	tx := txgen.DomainSend(s, u.Addr, g.existingDom("name"), txgen.Amt(cur, amt), g.fee(), w.Memo())
 	tx.Tags = []string{mtag, ctag}
 	if strange {
 		g.tag(&tx, "signer-other")
@@ -767,7 +778,7 @@ func (g *Gen) DomainRenew() txgen.Tx {
 		v, mtag = g.amount(per, "price-hv")
 	}
 	s, strange := g.signerFor(u, "signer")
-	tx := txgen.DomainRenew(s, u.Addr, name, txgen.Amt("OLT", v), w.Fee, w.Memo())
+	tx := txgen.DomainRenew(s, u.Addr, name, txgen.Amt("OLT", v), g.fee(), w.Memo())
 	tx.Tags = []string{mtag}
 	if strange {
 		g.tag(&tx, "signer-other")
@@ -783,7 +794,7 @@ func (g *Gen) DomainDeleteSub() txgen.Tx {
 		u = o
 	}
 	s, strange := g.signerFor(u, "signer")
-	tx := txgen.DomainDeleteSub(s, u.Addr, name, w.Fee, w.Memo())
+	tx := txgen.DomainDeleteSub(s, u.Addr, name, g.fee(), w.Memo())
 	if strange {
 		g.tag(&tx, "signer-other")
 	}
@@ -863,7 +874,7 @@ func (g *Gen) ProposalCreate() txgen.Tx {
 		InitialFunding: txgen.Amt("OLT", initial), FundingDeadline: fundDL, FundingGoal: balance.NewAmountFromBigInt(goal),
 		VotingDeadline: voteDL, PassPercentage: w.P.PropPassPct, ConfigUpdate: cfg}
 	s, strange := g.signerFor(u, "signer")
-	tx := txgen.ProposalCreate(s, m, w.Fee, w.Memo())
+	tx := txgen.ProposalCreate(s, m, g.fee(), w.Memo())
 	tx.Tags = tags
 	if strange {
 		g.tag(&tx, "signer-other")
@@ -895,7 +906,7 @@ func (g *Gen) ProposalFund() txgen.Tx {
 	}
 	cur, ctag := g.currency("OLT", "cur")
 	s, strange := g.signerFor(u, "signer")
-	tx := txgen.ProposalFund(s, p.ID, u.Addr, txgen.Amt(cur, amt), w.Fee, w.Memo())
+	tx := txgen.ProposalFund(s, p.ID, u.Addr, txgen.Amt(cur, amt), g.fee(), w.Memo())
 	tx.Tags = []string{mtag, ctag}
 	if strange {
 		g.tag(&tx, "signer-other")
@@ -908,7 +919,7 @@ func (g *Gen) ProposalCancel() txgen.Tx {
 	p := g.pickPropWhere("prop", func(p *PropInfo) bool { return w.PropFunding(p.ID) })
 	u := w.G.U.Users[p.Proposer%len(w.G.U.Users)]
 	s, strange := g.signerFor(u, "signer")
-	tx := txgen.ProposalCancel(s, p.ID, u.Addr, "because", w.Fee, w.Memo())
+	tx := txgen.ProposalCancel(s, p.ID, u.Addr, "because", g.fee(), w.Memo())
 	if strange {
 		g.tag(&tx, "signer-other")
 	}
@@ -947,7 +958,7 @@ func (g *Gen) ProposalVote() txgen.Tx {
 			tags = append(tags, "signer-other")
 		}
 	}
-	tx := txgen.ProposalVote(p.ID, addr, v.Key.Addr, op, w.Fee, w.Memo(), signers...)
+	tx := txgen.ProposalVote(p.ID, addr, v.Key.Addr, op, g.fee(), w.Memo(), signers...)
 	tx.Tags = tags
 	return g.note(tx)
 }
@@ -955,7 +966,7 @@ func (g *Gen) ProposalVote() txgen.Tx {
 // voteTx builds a correctly signed vote of validator v on proposal p.
 func (g *Gen) voteTx(p *PropInfo, v *sim.Val, op int) txgen.Tx {
 	w := g.W
-	tx := txgen.ProposalVote(p.ID, v.Stake.Addr, v.Key.Addr, governance.VoteOpinion(op), w.Fee, w.Memo(), v.Stake, v.Key)
+	tx := txgen.ProposalVote(p.ID, v.Stake.Addr, v.Key.Addr, governance.VoteOpinion(op), g.fee(), w.Memo(), v.Stake, v.Key)
 	tx.Tags = []string{"vote-burst"}
 	return tx
 }
@@ -975,7 +986,7 @@ func (g *Gen) ProposalWithdrawFunds() txgen.Tx {
 	}
 	cur, ctag := g.currency("OLT", "cur")
 	s, strange := g.signerFor(u, "signer")
-	tx := txgen.ProposalWithdrawFunds(s, p.ID, u.Addr, benef, txgen.Amt(cur, amt), w.Fee, w.Memo())
+	tx := txgen.ProposalWithdrawFunds(s, p.ID, u.Addr, benef, txgen.Amt(cur, amt), g.fee(), w.Memo())
 	tx.Tags = []string{mtag, atag, ctag}
 	if strange {
 		g.tag(&tx, "signer-other")
@@ -992,7 +1003,7 @@ func (g *Gen) ProposalFinalize() txgen.Tx {
 		v := g.activeVal("val")
 		u, valAddr = v.Key, v.Key.Addr
 	}
-	tx := txgen.ProposalFinalize(u, p.ID, valAddr, w.Fee, w.Memo())
+	tx := txgen.ProposalFinalize(u, p.ID, valAddr, g.fee(), w.Memo())
 	tx.Tags = []string{"public-router"}
 	return g.note(tx)
 }
@@ -1006,7 +1017,7 @@ func (g *Gen) ExpireVotes() txgen.Tx {
 		v := g.activeVal("val")
 		u, valAddr = v.Key, v.Key.Addr
 	}
-	tx := txgen.ExpireVotes(u, p.ID, valAddr, w.Fee, w.Memo())
+	tx := txgen.ExpireVotes(u, p.ID, valAddr, g.fee(), w.Memo())
 	tx.Tags = []string{"public-router"}
 	return g.note(tx)
 }
@@ -1049,7 +1060,7 @@ func (g *Gen) EthLock() txgen.Tx {
 		tags = append(tags, "dup-eth-tx")
 	}
 	s, strange := g.signerFor(u, "signer")
-	tx := txgen.EthLock(s, u.Addr, raw, w.Fee, w.Memo())
+	tx := txgen.EthLock(s, u.Addr, raw, g.fee(), w.Memo())
 	tx.Tags = tags
 	if strange {
 		g.tag(&tx, "signer-other")
@@ -1088,7 +1099,7 @@ func (g *Gen) EthRedeem() txgen.Tx {
 		}
 	}
 	s, strange := g.signerFor(u, "signer")
-	tx := txgen.EthRedeem(s, u.Addr, e.Addr, raw, w.Fee, w.Memo())
+	tx := txgen.EthRedeem(s, u.Addr, e.Addr, raw, g.fee(), w.Memo())
 	tx.Tags = []string{mtag}
 	if selTag != "" {
 		tx.Tags = append(tx.Tags, selTag)
@@ -1109,7 +1120,7 @@ func (g *Gen) ERC20Lock() txgen.Tx {
 	w.EthNonce[e.Name]++
 	raw := txgen.ERC20LockRaw(e, n, &sim.TestTokenContract, sim.ERCLockContract, amt)
 	s, strange := g.signerFor(u, "signer")
-	tx := txgen.ERC20Lock(s, u.Addr, raw, w.Fee, w.Memo())
+	tx := txgen.ERC20Lock(s, u.Addr, raw, g.fee(), w.Memo())
 	if strange {
 		g.tag(&tx, "signer-other")
 	}
@@ -1134,7 +1145,7 @@ func (g *Gen) ERC20Redeem() txgen.Tx {
 		}
 	}
 	s, strange := g.signerFor(u, "signer")
-	tx := txgen.ERC20Redeem(s, u.Addr, e.Addr, raw, w.Fee, w.Memo())
+	tx := txgen.ERC20Redeem(s, u.Addr, e.Addr, raw, g.fee(), w.Memo())
 	tx.Tags = []string{mtag}
 	if selTag != "" {
 		tx.Tags = append(tx.Tags, selTag)
@@ -1182,7 +1193,7 @@ func (g *Gen) ReportFinality() txgen.Tx {
 		tags = append(tags, "locker-other")
 	}
 	success := rapid.IntRange(0, 4).Draw(g.T, "success") != 0
-	tx := txgen.ReportFinality(v.Key, name, locker, v.Key.Addr, idx, success, w.Fee, w.Memo())
+	tx := txgen.ReportFinality(v.Key, name, locker, v.Key.Addr, idx, success, g.fee(), w.Memo())
 	tx.Tags = tags
 	return g.note(tx)
 }
